@@ -62,6 +62,16 @@ func c18Build(attempt int, decoy any, decoyPresent bool, inner any) string {
 		in["$parent"] = "../dec*"
 		vfsAddFile("root/in.yaml", in)
 		return "root/in.yaml"
+	case 11: // absolute link spelled inside the root whose target then leaves it
+		vfsAddSymlink("root/in.yaml", vfsAbs("/w/root/hop.yaml"))
+		vfsAddSymlink("root/hop.yaml", "../decoy.yaml")
+		return "root/in.yaml"
+	case 12: // the same through a parent and a directory link
+		vfsAddSymlink("root/base.yaml", vfsAbs("/w/root/dirhop/decoy.yaml"))
+		vfsAddSymlink("root/dirhop", "..")
+		in["$parent"] = "base"
+		vfsAddFile("root/in.yaml", in)
+		return "root/in.yaml"
 	default: // a parent inside a sub-directory referring back up and out
 		vfsAddFile("root/sub/mid.yaml", map[string]any{"$parent": "../../decoy", "mid": 1})
 		in["$parent"] = "sub/mid"
@@ -110,7 +120,7 @@ func c18Run(path string, spelling int) c18Result {
 // attempt to reach such a file fails, and file content is obtained only
 // through the os.Root handle from inside the root.
 func HarnessC18_root() {
-	attempt := ndChoice(11)
+	attempt := ndChoice(13)
 	spelling := ndChoice(5)
 	inner := ndScalarNN()
 	d1 := map[string]any{"secret": ndScalarNN()}
